@@ -238,7 +238,7 @@ def record(args):
                 ch = ctx.chans.get("c1")
                 d = ch.__dict__ if ch is not None else {}
                 known = ch is not None and "_wv_requests" in d
-                evs.append({"t": "cl" if name == "c1" else name, "g": g,
+                evs.append({"t": "cl" if name == "c1" else name, "g": g, "i": S.nsteps,
                             "s": {"known": bool(known), "total": d.get("_wv_total_outbufs_len", 0), "nreq": len(d.get("_wv_requests", ()) or ()),
                                   "will_close": bool(d.get("_wv_will_close", False)), "cwf": bool(d.get("_wv_close_when_flushed", False)),
                                   "connected": bool(d.get("_wv_connected", False))}})
@@ -336,18 +336,18 @@ def mc_scenarios(thorough):
     # quick variants are also checked for the liveness property ComesToRest (fair scheduling); the larger ones for safety only
     S = [(q, name, props, True) for name, props, q, t in T]
     if thorough:
-        S += [(t, name + " (larger)", "", False) for name, props, q, t in T if t is not None]
+        S += [(t, name + " (larger)", props.replace("only", "") + " thorough", False) for name, props, q, t in T if t is not None]
     if thorough:
-        S += [(M(sends=[[R(1)], [R(2)]], writes=W2, ops=[SEND, SEND, O("read", 1), ALL], room=0, lookahead=1, workers=2), "2 workers, partial drain, la=1", "", False),
-              (M(sends=[[R(1), R(2, True)], [R(3)]], writes=W2, ops=[SEND, SEND, ALL], room=1, lookahead=2, workers=2), "plain, close | plain, la=2, 2 workers", "", False),
-              (M(sends=[[R(1, w="head")], [R(1, w="body")], [R(2, w="head")], [R(2, w="body")]], writes=W2, ops=[SEND, ALL, AW(1), SEND, SEND, AW(2), SEND], room=1, lookahead=1),
-               "two expecting requests, slow client, la=1", "", False),
+        S += [(M(sends=[[R(1)], [R(2)]], writes=W2, ops=[SEND, SEND, O("read", 1), ALL], room=0, lookahead=1, workers=2), "2 workers, partial drain, la=1", "C04 C05 thorough", False),
+              (M(sends=[[R(1), R(2, True)], [R(3)]], writes=W2, ops=[SEND, SEND, ALL], room=1, lookahead=2, workers=2), "plain, close | plain, la=2, 2 workers", "C04 C11 thorough", False),
+              (M(sends=[[R(1, w="head")], [R(1, w="body")], [R(2, w="head")], [R(2, w="body")]], writes=W2, ops=[SEND, O("read", -1), AW(1), SEND, SEND, AW(2), SEND], room=1, lookahead=1),
+               "two expecting requests, slow client, la=1", "C19 thorough", False),
               (M(sends=[[R(1)], [R(2), R(3, w="head")], [R(3, w="body")]], writes=W2, ops=[SEND, SEND, AW(1), SEND], lookahead=2, workers=2),
-               "plain | plain + expecting head, 2 workers, la=2", "", False),
+               "plain | plain + expecting head, 2 workers, la=2", "C19 C04 thorough", False),
               (M(sends=[[R(1), R(2)]], writes=[[2, 2], [2]], ops=[SEND, O("read", 1, 1), O("read", 2, 2), O("read", -1, 3)], room=1, hwm=1, lookahead=1, workers=2),
-               "two producers above the mark, 2 workers, la=1", "", False),
+               "two producers above the mark, 2 workers, la=1", "C12 thorough", False),
               (M(sends=[[R(1), R(2)]], writes=[[2, 2], [2]], ops=[SEND, O("read", 1, 1), O("close")], room=1, hwm=1, lookahead=1, sfaults=["ok", "ok", "disc"]),
-               "producer above the mark, disconnect errno, then the client goes away, la=1", "", False)]
+               "producer above the mark, disconnect errno, then the client goes away, la=1", "C13 thorough", False)]
     return S
 
 
@@ -365,7 +365,10 @@ def model_check(chk, pid, scns=None, n_traces=None):
             return tlc.run("MC_Chan", text, workdir=wd, workers=5, timeout=3000)
         finally:
             shutil.rmtree(wd, ignore_errors=True)
-    items = [it for it in mc_scenarios(chk.thorough) if (chk.thorough and "only" not in it[2].split()) or pid in it[2].split()]
+    # quick: the small scenarios tagged for the property (with liveness); thorough: every small scenario (with liveness)
+    # plus the larger variants and the multi-worker scenarios tagged for the property (safety)
+    items = [it for it in mc_scenarios(chk.thorough)
+             if pid in it[2].split() or (chk.thorough and "thorough" not in it[2].split() and "only" not in it[2].split())]
     with cf.ThreadPoolExecutor(3) as ex:
         for item, r in zip(items, ex.map(mc, items)):
             chk.add_tlc("MC:Channel %s" % item[1], r, "every interleaving at visible-operation granularity" + ("; safety invariants + liveness (comes to rest under fair scheduling)" if item[3] else "; safety invariants"))
@@ -378,14 +381,14 @@ def model_check(chk, pid, scns=None, n_traces=None):
     chk.extra["scenarios_bound_to_Channel_tla"] = [s.get("name") for s, _ in bound]
     if not bound:
         return
-    n = n_traces if n_traces is not None else (60 if chk.thorough else 12)
+    n = n_traces if n_traces is not None else (36 if chk.thorough else 12)
     recs = pmap(record, [(s, chk.seed + i, n, 0) for i, (s, _) in enumerate(bound)])
     groups = {}
     for (scn, cfg), traces in zip(bound, recs):
         g = groups.setdefault(cfg["workers"], [])
         c = {k: v for k, v in cfg.items() if k != "workers"}
         for t in traces:
-            g.append({"id": len(g), "scn": scn.get("name"), "cfg": c, "ev": t["ev"]})
+            g.append({"id": len(g), "scn": scn.get("name"), "scn_obj": dict(scn, racy=list(CORE)), "choices": t["choices"], "cfg": c, "ev": t["ev"]})
 
     def tvrun(item):
         workers, traces = item
@@ -401,6 +404,7 @@ def model_check(chk, pid, scns=None, n_traces=None):
         finally:
             shutil.rmtree(wd, ignore_errors=True)
     CH = 120
+    around = []
     items = []
     for workers, traces in sorted(groups.items()):
         for i in range(0, len(traces), CH):
@@ -421,3 +425,15 @@ def model_check(chk, pid, scns=None, n_traces=None):
                     continue
                 shown[name] = shown.get(name, 0) + 1
                 chk.note_drift("execution of '%s' is not a behaviour of Channel.tla: event %d, thread expected at label %s, real operation %s" % (name, t[1], t[2], t[3]))
+                if len(around) < 8:
+                    tr = byid[int(i)]
+                    k = min(max(int(t[1]) - 1, 0), len(tr["ev"]) - 1)
+                    step = tr["ev"][k].get("i", 0) if tr["ev"] else 0
+                    around.append((tr["scn_obj"], tr["choices"], step - 25, step + 60, 120 if chk.thorough else 50))
+    if around:
+        # drift-guided search: the executions left the model at these points - look for property violations right
+        # there (single pre-emptions around the deviation), judged by the observable-event monitor
+        from checks import chan_common
+        res = pmap(h_channel.explore_around, around)
+        chk.extra["drift_guided_runs"] = sum(r["runs"] for r in res)
+        chan_common.judge_results(chk, pid, res, label="drift-guided")
